@@ -453,6 +453,7 @@ type fakeRouter struct {
 	sc   *scenario
 	rec  *record
 	conn *fakeConn
+	real grpcadapter.ClientConn // `create` cases: the real adapter instead of the scripted connection
 }
 
 var (
@@ -470,7 +471,11 @@ func (r *fakeRouter) RouteHTTP(req *http.Request) (grpcadapter.ClientConn, routi
 		RPCName: "/verif.S/M", Input: resourceInfoMsg, Output: resourceInfoMsg,
 		ClientStreaming: r.sc.rpc == "c", ServerStreaming: r.sc.rpc == "s",
 	}
-	return r.conn, routing.HTTPRoute{
+	var conn grpcadapter.ClientConn = r.conn
+	if r.real != nil {
+		conn = r.real
+	}
+	return conn, routing.HTTPRoute{
 		Target: theTarget, Service: theService, Method: m,
 		Binding: &bridgedesc.Binding{HTTPMethod: r.sc.methodOr(), Pattern: "/x", RequestBodyPath: r.sc.bodyPathOr(), ResponseBodyPath: r.sc.rbp},
 	}, nil
@@ -686,7 +691,7 @@ func (Area) Exec(input string) string {
 		err := parseErr(f[1])
 		st, hs := webbridge.VerifErrorStatus(err)
 		return fmt.Sprintf("%d %s %s %d", int(st.Code()), common.HexS(st.Message()), lettersOf(statusDetails(st)), hs)
-	case "e2e", "opts", "strag":
+	case "e2e", "opts", "strag", "create":
 		return execIsolated(input) // in a worker subprocess: a runtime fatal error becomes "CRASH …", not a dead harness
 	}
 	return "BADOP"
@@ -1015,6 +1020,8 @@ func (Area) Gen(r *rand.Rand, tier string, emit func(string)) {
 	count := func(k string) { genStats[k]++ }
 	// 0a. abandoned sends (D21): blocking ResponseWriter + deadline
 	genStrag(emit, count)
+	// 0b. failures while the outgoing stream is created, with the real AdaptedClientConn
+	genCreate(tier, emit, count)
 	if raceBuild {
 		genRaceSubset(emit, count)
 		return
